@@ -13,6 +13,7 @@ Property theorems (named `C13_*`) about `Model/Lifecycle.lean` (one instance) an
   7. registries              the four registries agree (partial: F-22)
 -/
 import PrimaiteModel.Model.Registries
+import PrimaiteModel.Lemmas.RegistriesRep
 import PrimaiteModel.Gen.Software
 namespace Primaite.C13
 open Primaite.Lifecycle Primaite.Registries
@@ -777,6 +778,31 @@ theorem C13_application_accepted_iff_source (n : Node) (name : String) (r : AppR
         · simp [hf, hb]
         · simp [hf, hb, C13_application_request_accepted_iff i.a r hr]
 
+/-- **A refused service request changes nothing** (node level): whenever `[…,'service',name,r]` does not answer `success`
+— node not ON, nothing routed, wrong state, or `fix` with nothing to fix — the events it delivers leave every service
+object exactly as it was. -/
+theorem C13_refused_changes_nothing (n : Node) (name : String) (r : SvcReq) (i : SvcInst)
+    (hi : n.findSvc i.m.uid = some i) (h : n.svcReqOut name r ≠ .status .success) :
+    i.s.applyAll (n.svcEvs (.svcReq name r) i) = i.s := by
+  simp only [Node.svcEvs]
+  cases hon : n.isOn
+  · rfl
+  · cases hd : dget name n.svcRoutes with
+    | none => rfl
+    | some u =>
+      simp only [if_true]
+      by_cases hc : u = i.m.uid ∧ i.m.cls.baseRoutes = true ∧ r.passes i.s.st = true
+      · rw [if_pos hc]
+        obtain ⟨hu, hb, hp⟩ := hc
+        have hout : n.svcReqOut name r = .status (i.s.request r).2 := by
+          simp [Node.svcReqOut, hon, hd, hu, hi, hb]
+        have hne : (i.s.request r).2 ≠ .success := fun hh => h (by rw [hout, hh])
+        have := C13_service_refused_unchanged i.s r hne
+        simp only [Svc.request, hp, if_true] at this
+        simpa [Svc.applyAll] using this
+      · rw [if_neg hc]; rfl
+
+
 /-- non-vacuity: a RUNNING service routed on an ON node accepts `pause`, refuses `start` -/
 example :
     let n : Node := ({} : Node).installSvc { name := "dns-client", port := 53, proto := 1, guarded := false } [] .good 2
@@ -1328,5 +1354,72 @@ theorem C13_frame_accepted_only_if (n : Node) (h : Hdr) (scan : Bool) (ha : n.fr
       cases hf : n.findApp u with
       | none => simp [hf] at h4
       | some i => exact ⟨u, i, rfl, hf, by simpa [hf] using h4⟩
+
+/-! ## 7. the registries agree
+
+`Rep n es` (Lemmas/RegistriesRep.lean): `software`, `node.services`, `node.applications`, the service routes and the
+application routes are the order-preserving projections of ONE list `es` of installed software with distinct names
+and distinct objects; every port-map entry belongs to an installed object; every named object exists with that
+name and kind.  `rep_step` proves it is kept by every operation under `Op.fresh`, and that `uninstall` never raises. -/
+
+/-- the observer-level statement: the same names in `software_manager.software` as `describe_state` lists
+(names of the objects in `node.services` and `node.applications`) -/
+def NamesAgree (n : Node) : Prop :=
+  ∀ name, name ∈ n.software.map (·.1) ↔ name ∈ (n.services ++ n.applications).filterMap n.nameOf
+
+/-- **`registries_agree`, partial.**  From an empty node, after ANY sequence of operations (installs and uninstalls
+through the API and through requests, requests, API calls, ticks, power events, payloads) in which the API never
+installs a name that is installed at that moment (`FreshRun`; the request handler checks this itself):
+the four registries are projections of one list of installed software; in particular they carry the same names,
+the request routes are exactly the names `describe_state` lists, and every port-map entry is owned by an installed
+software. -/
+theorem C13_registries_agree_partial (p : Power) (up down : Int) (ops : List Op)
+    (hf : FreshRun { power := p, upDur := up, downDur := down } ops) :
+    let n := Node.run { power := p, upDur := up, downDur := down } ops
+    (∃ es, Rep n es) ∧ NamesAgree n ∧
+    n.svcRoutes.map (·.1) ++ n.appRoutes.map (·.1) = (n.services ++ n.applications).filterMap n.nameOf ∧
+    (∀ x ∈ n.portMap, ∃ name, n.nameOf x.2 = some name ∧ (name, x.2) ∈ n.software) := by
+  intro n
+  obtain ⟨es, h⟩ := rep_run ops _ [] (C13_rep_init p up down) hf
+  obtain ⟨_, h2, h3, h4⟩ := C13_rep_names n es h
+  exact ⟨⟨es, h⟩, h3, h2, h4⟩
+
+/-- under agreement `uninstall` cannot hit `remove_request`'s RuntimeError -/
+theorem C13_uninstall_never_raises (n : Node) (es : List Entry) (h : Rep n es) (name : String) :
+    (n.step (.uninstall name)).2 = .done := by
+  obtain ⟨n', hu, _⟩ := rep_uninstall n es h name
+  simp [Node.step, hu]
+
+/-- non-vacuity: a fresh run with two installs, a request install, an uninstall and a tick -/
+example : FreshRun ({} : Node)
+    [.installSvc { name := "dns-client", port := 53, proto := 1, guarded := false } [] .good 2,
+     .installApp { name := "web-browser", port := 80, proto := 1, guarded := false, ctorRuns := true } [] .good 2,
+     .reqInstall "nmap" (some ({ name := "nmap", port := 0, proto := 0, guarded := false }, [])),
+     .uninstall "dns-client", .tick,
+     .installSvc { name := "dns-client", port := 53, proto := 1, guarded := false } [] .good 2] := by
+  simp only [FreshRun, Op.fresh]
+  decide
+
+/-- the full statement, without the freshness hypothesis -/
+def FullRegistries : Prop := ∀ ops : List Op, NamesAgree (({} : Node).run ops)
+
+/-- **Counterexample (F-22)**, the witness the rig replays: install a class twice (nothing stops the second install),
+uninstall the name once: `software` no longer has it, `node.services` still holds the first object, which keeps being
+ticked and listed by `describe_state`. -/
+theorem C13_registries_counterexample : ¬ FullRegistries := by
+  intro h
+  have := (h [.installSvc { name := "dns-client", port := 53, proto := 1, guarded := false } [] .good 2,
+              .installSvc { name := "dns-client", port := 53, proto := 1, guarded := false } [] .good 2,
+              .uninstall "dns-client"] "dns-client").mpr (by decide)
+  revert this
+  decide
+
+/-- already right after the second install two objects of one name are in `node.services` while `software`, the route
+and the port map only know the second -/
+theorem C13_double_install_shadows :
+    let n := ({} : Node).run [.installSvc { name := "dns-client", port := 53, proto := 1, guarded := false } [] .good 2,
+                              .installSvc { name := "dns-client", port := 53, proto := 1, guarded := false } [] .good 2]
+    n.services = [0, 1] ∧ n.software = [("dns-client", 1)] ∧ n.svcRoutes = [("dns-client", 1)] ∧
+    n.portMap = [((53, 1), 1)] := by decide
 
 end Primaite.C13
